@@ -323,6 +323,8 @@ class Sym(object):
             return SymC(self, _zero()) / o
         if o.op == 'const':
             if o.a[0] == 0:
+                if _HOOKS.get('divide_ignored', 0) > 0 and self.op == 'const' and self.a[0] != 0:
+                    return inf_node()
                 raise ZeroDivisionError('symbolic division by constant zero')
             return self * const(1 / o.a[0])
         if o.op == 'var' and o.a[0] == '@inf':
